@@ -320,9 +320,11 @@ structure RRule where
   dst : EP
   deriving DecidableEq, Repr, Inhabited
 
+/-- Attributes with the inline service entries in compact form. -/
+def compactAttrs (a : Attrs) : Attrs := { a with svcEntries := compactJSON a.svcEntries }
+
 def resolveRule (C : Config) (r : Rule) : RRule :=
-  ⟨{ r.attrs with svcEntries := compactJSON r.attrs.svcEntries }, resolveSvc C.services r.service,
-    resolveEP C.groups r.src, resolveEP C.groups r.dst⟩
+  ⟨compactAttrs r.attrs, resolveSvc C.services r.service, resolveEP C.groups r.src, resolveEP C.groups r.dst⟩
 
 def rulesOf (C : Config) (pid : String) : List Rule :=
   match findPolicy C.policies pid with
